@@ -354,7 +354,9 @@ pub fn load(config: &Config) -> Result<Context> {
         match try_load_currency(&config.currency, &mut ctx, &search_path) {
             Ok(()) => (),
             Err(err) => {
-                println!("{:?}", err.wrap_err("Failed to load currency data"));
+                // Not on stdout: in the sandbox child that is the pipe that
+                // carries the frames to the parent.
+                eprintln!("{:?}", err.wrap_err("Failed to load currency data"));
             }
         }
     }
@@ -474,7 +476,7 @@ fn cached(
 
     if let Ok(file) = File::open(&path) {
         // Indicate error even though we're returning success.
-        println!(
+        eprintln!(
             "{:?}",
             Report::wrap_err(
                 err,
